@@ -206,6 +206,8 @@ def c02(res):
         c = std_cfgs(threads)
         for x in c:
             x["report"] = True      # the textual report of the finished run carries the same counts and verdicts
+        # waiting with join_and_report instead of join changes nothing
+        c += [gg.base_cfg(s_, 2, join_and_report=True, report=True) for s_ in ("bfs", "dfs")]
         return c
     run_family(res, "C02", FIELDS["C02"], graphs, cfgs)
     # graphs larger than a block: verdicts decided by states deep in the graph (formula properties)
